@@ -53,6 +53,7 @@ def main():
             label = os.path.basename(os.path.dirname(d))
             if names and label not in names: continue
             meta = json.load(open(os.path.join(os.path.dirname(d), "meta.json")))
+            if meta.get("status") == "retired" and label not in names: continue
             items.append((label, "patch", d, props or [meta["property"]]))
     elif mode == "mutants":
         for mid, m in cat.items():
